@@ -299,7 +299,7 @@ class Sub(object):
     parallel  : False to run in the parent process (e.g. for checks that manage threads)
     """
 
-    def __init__(self, name, gen, evalf, chunk=200, floor=1, parallel=True, doc='', timeout=0, guard=False):
+    def __init__(self, name, gen, evalf, chunk=200, floor=1, parallel=True, doc='', timeout=0, guard=False, poison=True):
         self.name = name
         self.gen = gen
         self.evalf = evalf
@@ -307,6 +307,8 @@ class Sub(object):
         self.floor = floor
         self.parallel = parallel
         self.doc = doc
+        self.poison = poison        # extreme / failing API calls run before every case (gpmc.poison); off for C09, whose
+                                    # worker processes must never execute library code themselves
         self.guard = guard          # every rec.call() is also an argument-unchanged / earlier-results-intact probe
         self.timeout = timeout      # seconds per case (0 = default 180 s; VERIF_CASE_TIMEOUT overrides)
 
@@ -328,6 +330,7 @@ class CaseTimeout(BaseException):      # not an Exception: rec.call() must not s
 
 
 _TIMEOUTS = {}     # sub-check -> time-outs seen in this worker process
+_POISON = [0]
 
 
 def _case_limit():
@@ -343,6 +346,13 @@ def eval_one(sub, case, rec):
     import signal
     rec.begin_case(sub.name, case)
     rec.guard = bool(getattr(sub, 'guard', False))
+    if getattr(sub, 'poison', True):
+        # before the first case a worker process evaluates and before every 25th after that (what such calls leave behind
+        # stays behind, so it need not be repeated before every single case)
+        _POISON[0] += 1
+        if _POISON[0] % 25 == 1:
+            from gpmc import poison
+            poison.run_all()
     if _TIMEOUTS.get(sub.name, 0) >= 2:
         # the violation is already recorded twice by this worker; do not spend the time limit on every remaining case
         rec.skip('not run: the library already timed out twice in this sub-check')
